@@ -186,6 +186,8 @@ func checkC05(c *Ctx) {
 				if _, isLk := v.Tuple.(*ssa.Lookup); isLk {
 					role = "value"
 				}
+			case *ssa.Lookup:
+				role = "value"
 			}
 			if _, isIA := stripConv(src).(*ssa.UnOp); isIA && role == "component" {
 				role = "key"
@@ -336,6 +338,7 @@ func checkC05(c *Ctx) {
 			c.check(ok, "O4 same-writer", "tally.KeyForStringMap:args", f.Pos(), "passes (\"\", map) through", "KeyForStringMap does not call KeyForPrefixedStringMap with the empty prefix and its map")
 		}
 	}
+	c.checkKeyWriterPrecedence("O4 rightmost-precedence")
 	// Subscope: probe key and insert key come from the writer over (prefix, parent.tags, tags)
 	if sub := c.fn("", "scopeRegistry", "Subscope"); sub != nil {
 		n := 0
